@@ -318,7 +318,7 @@ def apply_base(ns, op, pool, objs, reg):
         return ["OTaxa", [reg(t) for t in ns.bitmask_taxa_list(op[1])]]
     if name == "NewickGroups":
         s = ns.split_as_newick_string(op[1]) if (len(op) > 2 and op[2] == 1) else ns.bitmask_as_newick_string(op[1])
-        return base.parse_groups(s, pool)
+        return base.parse_groups(s, pool, ns, op[1])
     if name == "SetMutable":
         ns.is_mutable = op[1]
         return ["OUnit"]
